@@ -158,7 +158,7 @@ func missing(all map[string]*types.Const, covered map[string]bool, except map[st
 func init() {
 	core.Register(&core.Rule{
 		Name: "R-EXHAUST",
-		Doc: "Switches over the repository's closed enumerations: (a) the NFA compiler's switch over regexp/syntax.Op covers every operator the parser can emit (all exported Op constants except OpNoMatch, which the parser removes from alternations and never returns at top level) and its default returns an error; (b) every dispatcher-shaped switch over meta.Strategy (every clause ends in return) either covers all strategies or has a default that calls the same universal helper as its UseNFA clause; (c) every switch whose tag is a nfa.Look parameter of a function that returns a value and in which some clause returns (the switch decides the result: an assertion evaluator or set operation) covers all look-around kinds or has a default; (d) every switch over nfa.StateKind covers all kinds or has a default. Necessary for C09 (Compile accepts stdlib's language), C01/C11 (every strategy is answered by every dispatcher) and C14 (no assertion kind is silently ignored).",
+		Doc: "Switches over the repository's closed enumerations: (a) the NFA compiler's switch over regexp/syntax.Op covers every operator the parser can emit (all exported Op constants except OpNoMatch, which the parser removes from alternations and never returns at top level) and its default returns an error; (b) every dispatcher-shaped switch over meta.Strategy (every clause ends in return) either covers all strategies or has a default that calls the same universal helper as its UseNFA clause; (c) the total evaluators over nfa.Look (a frozen table: checkLookAssertion, LookSet.Contains, LookSet.Insert) have a clause of their own for every look-around kind - a default or the code behind the switch answers the same for kinds that need different answers; other switches over nfa.Look may be partial (a predicate 'is a word assertion that holds'), omitted kinds are listed in the evidence; (d) every switch over nfa.StateKind covers all kinds or has a default. Necessary for C09 (Compile accepts stdlib's language), C01/C11 (every strategy is answered by every dispatcher) and C14 (no assertion kind is silently ignored).",
 		Min: 40,
 		Run: func(p *core.Prog) *core.RuleResult {
 			res := &core.RuleResult{}
@@ -169,6 +169,7 @@ func init() {
 				return isType(n, "regexp/syntax", "Op") || isType(n, "meta", "Strategy") || isType(n, "nfa", "Look") || isType(n, "nfa", "StateKind")
 			})
 			counts := map[string]int{}
+			evaluators := 0
 			kc := core.NewKeyCounter()
 			for _, si := range sws {
 				fname := declName(p, si.pkg, si.fn)
@@ -251,6 +252,17 @@ func init() {
 					o.Key = kc.Key("R-EXHAUST", fname, "switch "+tn)
 					miss := missing(all, si.covered, nil)
 					switch {
+					case tn == "nfa.Look" && lookEvaluators[fname] != "":
+						// a total evaluator: every kind has a clause of its own, a default or the code behind the switch
+						// gives one answer for kinds that need different ones
+						evaluators++
+						if len(miss) == 0 {
+							o.Status = core.Discharged
+							o.Detail = "total evaluator (" + lookEvaluators[fname] + "): every look-around kind has its own clause"
+						} else {
+							o.Status = core.Violated
+							o.Detail = fmt.Sprintf("total evaluator (%s) has no clause for %v: those assertions get the answer of the default / of the code after the switch, i.e. are treated as always false/true", lookEvaluators[fname], miss)
+						}
 					case len(miss) == 0:
 						o.Status = core.Discharged
 						o.Detail = "covers every constant"
@@ -258,25 +270,32 @@ func init() {
 						o.Status = core.Discharged
 						o.Detail = fmt.Sprintf("%v handled by the default clause", miss)
 					default:
-						// a switch without default that omits kinds: acceptable only if the omitted kinds are handled after the switch;
-						// report which kinds are skipped
+						// a switch without default that omits kinds: the omitted kinds take the code after the switch, which is
+						// the same as a default clause; a partial predicate ('is a word assertion that holds') is legitimate
 						o.Status = core.Discharged
 						o.Detail = fmt.Sprintf("no default; %v are not selected by this switch (they take the code after it)", miss)
-						if tn == "nfa.Look" && si.fn.Type.Results != nil && len(si.fn.Type.Results.List) > 0 && tagIsParam(si) && anyClauseReturns(si) {
-							o.Status = core.Violated
-							o.Detail = fmt.Sprintf("switch over look-around kinds has no default and omits %v: those assertions would be treated as always false/true", miss)
-						}
 					}
 				}
 				res.Obligations = append(res.Obligations, o)
 			}
 			res.Notes = append(res.Notes, fmt.Sprintf("switch instances: %v", counts))
+			if evaluators == 0 {
+				res.Fatal = append(res.Fatal, "none of the total look-around evaluators of the table (lookEvaluators) was found")
+			}
 			if counts["compile"] != 1 {
 				res.Fatal = append(res.Fatal, "compileRegexp's switch over syntax.Op not found (anchor lost)")
 			}
 			return res
 		},
 	})
+}
+
+// lookEvaluators: the functions that answer for every look-around kind (confirmed by reading); a helper that decides
+// a subset on purpose ('is this \\b or \\B and does it hold') is not one of them.
+var lookEvaluators = map[string]string{
+	"nfa.checkLookAssertion":       "the PikeVM/backtracker evaluation of an assertion at a position",
+	"(dfa/lazy.LookSet).Contains": "membership in the DFA's set of assertions that hold",
+	"(dfa/lazy.LookSet).Insert":   "insertion into the DFA's set of assertions that hold",
 }
 
 // tagIsParam: the switch tag is an identifier naming a parameter (or receiver) of the enclosing function.
